@@ -1513,7 +1513,7 @@ int main(int argc, char** argv)
         const auto maxlen_arg = args.get("maxlen");
         const int  maxlen     = maxlen_arg.empty() ? (args.thorough() ? 10 : 8) : std::max(1, std::atoi(maxlen_arg.c_str()));
         return vf::run(args, "C11",
-                       "earlystop: cases 0..799 enumerate EVERY (training, validation) error history up to length maxlen (8 quick, 10-11 thorough) over "
+                       "earlystop: cases 0..799 enumerate EVERY (training, validation) error history up to length maxlen (8 quick, 10-12 thorough) over "
                        "10 symbols (5 validation levels incl. improvement == eps and < eps, training error above/below eps) x patience 1..4 x "
                        "with/without validation samples (case = the first two symbols, all continuations explored); cases >= 800: random histories "
                        "up to length 200 on an eps/2 grid, eps = 2^-1..2^-40, patience up to 1000; a history is non-trivial when >= 2 steps were "
